@@ -137,6 +137,8 @@ class Kind:
         raise NotImplementedError
     def shape(self, x):               # histogram key
         return ""
+    def skip_malformed(self, hx):     # malformed inputs on which the Go decoder is not a function of the input
+        return False
     def rt_ok(self, x, got):          # round-trip oracle on Go's decoded value
         return got == [0, self.proj(x)]
 
@@ -392,7 +394,54 @@ class AttributeK(Kind):
         return "name=%d,class=%d,rank=%d,data=%d" % (len(x["name"]) // 2, x["dt"]["class"], len(x["dims"]), len(x["data"]) // 2)
 
 
-KINDS = [Dataspace(), Layout(), DatatypeK(), DatatypeVlen(), AttributeK()]
+class SuperblockK(Kind):
+    name = "superblock"
+    imports = "Model.CodecSuper"
+    F = ["version", "offsize", "lensize", "base", "root", "superext", "rootbtree", "rootheap", "eof"]
+
+    def gen(self, rng, i):
+        ver = [0, 2, 3][i % 3]
+        x = dict(version=ver, offsize=8, lensize=8)
+        for f in self.F[3:]:
+            x[f] = pick_u64(rng)
+        if rng.random() < 0.4:
+            x["superext"] = 0
+        if rng.random() < 0.3:
+            x["base"] = 0
+        return x
+
+    def invalid(self, rng):
+        ok = self.gen(rng, 1)
+        return [dict(ok, version=1), dict(ok, version=4), dict(ok, offsize=4), dict(ok, lensize=4), dict(ok, version=0, offsize=2)]
+
+    def coq(self, x):
+        return ("{| sp_version := %d; sp_offsize := %d; sp_lensize := %d; sp_base := %s; sp_root := %s; sp_superext := %s; "
+                "sp_rootbtree := %s; sp_rootheap := %s; sp_eof := %s |}") % (
+            x["version"], x["offsize"], x["lensize"], cn(x["base"]), cn(x["root"]), cn(x["superext"]),
+            cn(x["rootbtree"]), cn(x["rootheap"]), cn(x["eof"]))
+    def enc_expr(self, x):
+        return "enc_superblock " + self.coq(x)
+    def encok_expr(self, x):
+        return "encok_superblock " + self.coq(x)
+    def wf_expr(self, x):
+        return "wf_superblock " + self.coq(x)
+    def dec_expr(self, hexs, sb):
+        return "oval val_superblock' (dec_superblock %s)" % cbytes(hexs)
+    def proj(self, x):
+        U = (1 << 64) - 1
+        if x["version"] == 0:
+            return [0, 8, 8, 0, 0, x["root"], 0, 0, x["rootbtree"], x["rootheap"]]
+        return [x["version"], 8, 8, 0, x["base"], x["root"], x["superext"] or U, 0, 0, 0]
+    def shape(self, x):
+        return "v=%d,ext0=%d,base0=%d" % (x["version"], x["superext"] == 0, x["base"] == 0)
+    def skip_malformed(self, hx):
+        # a version-0 image cut to 48..95 bytes: the reader takes the root addresses from whatever the pooled
+        # 128-byte buffer held before (reported as C17 material); not comparable with a model
+        b = bytes.fromhex(hx)
+        return 48 <= len(b) < 96 and b[:8] == bytes([137, 72, 68, 70, 13, 10, 26, 10]) and b[8] == 0
+
+
+KINDS = [Dataspace(), Layout(), DatatypeK(), DatatypeVlen(), AttributeK(), SuperblockK()]
 
 # kinds whose encoder/decoder pair is known not to round-trip: id of the KNOWN_FINDINGS entry
 KNOWN_ROUNDTRIP = {"datatype_vlen": "C11-vlen-datatype-header"}
@@ -504,8 +553,12 @@ def run(ctx):
         # malformed stream
         srcs = [(x, r) for x, r in zip(vals, res[:len(vals)]) if r.get("enc") is not None and len(r["enc"]) <= 400][:n_mal_src]
         mal = []
+        skipped_mal = 0
         for x, r in srcs:
             for how, hx in mutations(rng, r["enc"], 3, 5):
+                if K.skip_malformed(hx):
+                    skipped_mal += 1
+                    continue
                 mal.append((x, how, hx))
         mres = vlib.run_harness(H, "c11", [dict(kind=K.name, raw=hx, sb=x.get("_sb")) for x, how, hx in mal]) if mal else []
         mclass = {}
@@ -519,7 +572,7 @@ def run(ctx):
         evaluations += len(exprs)
         distinct += len(encs)
         cov_kinds[K.label] = dict(values=len(vals), distinct_encodings=len(encs), invalid_values=len(inval),
-                                 malformed=len(mal), malformed_outcomes=mclass, coq_checks=len(exprs),
+                                 malformed=len(mal), malformed_skipped_nondeterministic=skipped_mal, malformed_outcomes=mclass, coq_checks=len(exprs),
                                  shapes=dict(sorted(hist.items(), key=lambda kv: -kv[1])[:12]), n_shapes=len(hist))
         if vals:
             samples.append(dict(kind=K.name, value=K.go(vals[0]), sb=vals[0].get("_sb"), enc=res[0].get("enc"), dec=res[0].get("dec")))
